@@ -259,6 +259,9 @@ structure ParseState where
   loaded : Option Loaded := none
   /-- after `_add_maths`: the variables that have a defining equation -/
   defined : Option (List VRef) := none
+  /-- after `_add_maths`: the equations it has added to `model.equations`, in order (recorded by the GENERATED-symbol
+      stage `LoaderClose.genMathsStage` only; the stages of `parseView` re-derive them from the document) -/
+  maths : Option (List FlatEq) := none
   /-- after `transform_constants`: the finished model -/
   flat : Option Flat := none
 
